@@ -51,6 +51,7 @@ type c08obs struct {
 	GapPen    int     `json:"gappen"`
 	Sc        []int   `json:"sc,omitempty"` // row-major la x lb: sc[i*lb+j] = score(A[i],B[j])
 	Mq        []int   `json:"mq,omitempty"` // row-major la x lb: match table entry for (qA[i], qB[j])
+	Mm        []int   `json:"mm,omitempty"` // row-major la x lb: mismatch table entry for (qA[i], qB[j]) (score of a/c at scale 1)
 	ScoreL    int     `json:"scoreL"`
 	PathL     []int   `json:"pathL,omitempty"`
 	ScoreR    int     `json:"scoreR"`
@@ -155,10 +156,12 @@ func c08run(c c08case) any {
 	if c.Mat {
 		o.Sc = make([]int, la*lb)
 		o.Mq = make([]int, la*lb)
+		o.Mm = make([]int, la*lb)
 		for i := 0; i < la; i++ {
 			for j := 0; j < lb; j++ {
 				o.Sc[i*lb+j] = obialign.VerifPairingScore(ra[i], byte(c.QA[i]), rb[j], byte(c.QB[j]), c.Scale)
 				o.Mq[i*lb+j] = obialign.VerifMatchScore(byte(c.QA[i]), byte(c.QB[j]))
+				o.Mm[i*lb+j] = obialign.VerifMismatchScore(byte(c.QA[i]), byte(c.QB[j]))
 			}
 		}
 	}
